@@ -116,6 +116,20 @@ def run(ctx):
                         ORDER[:k], desc, r["value"], r["error"], rr["value"]),
                         "input": {"stages": ORDER[:k], "edit": desc, "store": store_kind, "source": progs.render_world(s.world, "extmod")}, "kf": None})
                     break
+            # a function that keeps nothing at all (nor anything below it), evaluated with the analysis stages only: nothing runs
+            nokeep = [f["name"] for f in s.world["funs"] if not f["items"] and not f.get("store_path")
+                      and all(d is not None for (_, d) in f["params"])]
+            for name in nokeep[:2]:
+                for k in (1, 2):
+                    rk, _ = s.run({"kind": "eval", "fun": name}, {"stages": ORDER[:k]})
+                    res.evaluations += 1
+                    res.count("analysis_only_of_a_function_without_keeps")
+                    res.nontrivial("%d nokeep %s %d" % (wi, name, k))
+                    if rk["error"] is not None or rk["value"] is not None or rk["log"] or rk["stored"] or rk["synced"]:
+                        res.violations.append({"what": "analysis-only evaluation (stages %s) of %s, which keeps nothing, is not a dry run: value %r, executed %s, error %s" % (
+                            ORDER[:k], name, rk["value"], rk["log"], rk["error"]),
+                            "input": {"stages": ORDER[:k], "function": name, "store": store_kind, "source": progs.render_world(s.world, "extmod")}, "kf": None})
+                        break
             # invalid lists must be refused with a DDS error and do nothing
             for badlist in (["eval"], ["analysis", "eval"], ["analysis", "nonsense"], ["path_commit"]):
                 r, rr = s.run(entry, {"stages": badlist})
